@@ -42,6 +42,7 @@ DOCS = [
     # bytes, declaration beyond the 1024-byte prescan window: tentative windows-1252 -> utf-8, reset() and re-parse
     ("", b"<!DOCTYPE html><!--" + b"x" * 1030 + b"--><p>x<meta charset=utf-8>y</p><table>z"),
     ("", ["<!DOCTYPE html><table>a\x00b</table>"]),      # the tokenizer queues two tokens at once (error + NUL)
+    ("div", ["<p>a<table>b</table>c"]),                  # fragment whose tree depends on the compatibility mode
 ]
 
 
@@ -239,7 +240,7 @@ def _run(ctx):
     listed = [DEFECT] if DEFECT in ctx.open_keys else []
     quick = ctx.quick
     ctx.constants = {"MC_Lifecycle": {"documents": len(DOCS), "MaxCalls": "2 (all documents, all call variants)" if quick else
-                                      "2 (all documents, all call variants) and 3 (documents 1-6,10,11,15; last call non-strict, "
+                                      "2 (all documents, all call variants) and 3 (documents 1-5,7,10,11,15,16; last call non-strict, "
                                       "source never fails)",
                                       "call variants": "document x strict on/off x source failure at read 0..n"},
                      "KnownDefects(code-faithful)": listed}
@@ -261,7 +262,7 @@ def _run(ctx):
             raise tlc.TLCError("MC_Lifecycle did not export its document table")
         return
     docs = list(range(1, len(DOCS) + 1))
-    docs3 = [1, 2, 3, 4, 5, 6, 10, 11, 15]          # the documents that leave or reveal a persistent field
+    docs3 = [1, 2, 3, 4, 5, 7, 10, 11, 15, 16]          # the documents that leave or reveal a persistent field
     runs = [(2, False, docs)] if quick else [(2, False, docs), (3, True, docs3)]
     # 1. intended design: the theorems hold
     for mcalls, probe, dd in runs:
@@ -336,7 +337,9 @@ def _run(ctx):
     run_schedules(ctx)
     # 6. handler cache
     run_cache(ctx)
-    # 7. serializer and walker objects
+    # 7. process-wide walker / filter state first (the later stages switch filters on), then serializer and walker objects
+    run_process_history(ctx, pool)
+    run_walker_cache(ctx)
     run_serializer(ctx, pool)
 
 
@@ -801,6 +804,124 @@ def run_serializer(ctx, pool):
     for tr, rec in core.validate_traces(ctx, "Trace_SerLifecycle", traces, "trace-ser"):
         ctx.violation("serializer / walker history rejected by Trace_SerLifecycle: %s at call %d" % (rec["v"], rec["l"]),
                       {"kind": "ser-trace", "trace": tr, "calls": meta[idx[id(tr)]], "verdict": rec})
+
+
+# ------------------------------------------------------------------------------------------------
+# process-wide state of walkers / filters (tokens must be owned by the call)
+WS_RUN = {"nl": "\n", "sp": " ", "nlsp": "\n  ", " ": " "}
+WS_DOC = {1: "<i>a</i>%s<i>b</i>", 2: "<pre><b>x</b>%s<b>y</b>%s</pre>", 3: "<i>a</i>%s<i>b</i>%s<i>c</i>%s<i>d</i>", 4: "<u>a</u>%s<u>b</u>"}
+WS_IN = {1: ("nl",), 2: ("nl", "nl"), 3: ("nlsp", "sp", "nl"), 4: ("sp",)}
+
+
+def wc_cfg(maxcalls, cache, export):
+    return ("INIT Init\nNEXT Next\nCHECK_DEADLOCK FALSE\nINVARIANT ThmTokensOwned\nINVARIANT ThmExport\nCONSTANT MaxCalls = %d\n"
+            "CONSTANT TokenCache = %s\nCONSTANT Export = %s\n" % (maxcalls, "TRUE" if cache else "FALSE", "TRUE" if export else "FALSE"))
+
+
+def run_walker_cache(ctx):
+    import html5lib
+    from html5lib import treewalkers
+    mcalls = 3 if ctx.quick else 4
+    ctx.constants["MC_WalkerCache"] = {"MaxCalls": mcalls, "documents": 4, "strip_whitespace": "on/off per call"}
+    r = ctx.tlc("MC_WalkerCache", wc_cfg(mcalls, False, True), "mc-walkercache", keep_records=False)
+    if r.violated:
+        ctx.violation("theorem %s fails on MC_WalkerCache" % r.violated, {"tlc": r.stdout_path})
+        return
+    r2 = ctx.tlc("MC_WalkerCache", wc_cfg(2, True, False), "mc-walkercache-refuted", expect_ok=False, workers=1)
+    ctx.notes["shared_token_cache_refuted_at_model_level"] = (r2.violated == "ThmTokensOwned")
+    recs = [x for x in tlc.iter_records(r.stdout_path) if isinstance(x, dict) and "hist" in x]
+    recs.sort(key=lambda x: json.dumps(x, sort_keys=True))
+    for k, rec in enumerate(recs):
+        tb = TBS[k % 2]
+        ctx.traces += 1
+        for ci, h in enumerate(rec["hist"]):
+            src = WS_DOC[h["doc"]] % tuple(WS_RUN[x] for x in WS_IN[h["doc"]])
+            exp = WS_DOC[h["doc"]] % tuple(WS_RUN[x] for x in h["out"])
+            tree = html5lib.parseFragment(src, treebuilder=tb)
+            got = new_serializer(strip_whitespace=h["strip"]).render(treewalkers.getTreeWalker(tb)(tree))
+            if got != exp:
+                ctx.violation("render call %d in one process differs from the walker/filter machine (tokens of a walk are not "
+                              "owned by the call?)" % (ci + 1),
+                              {"kind": "walker-cache", "treebuilder": tb, "history": rec["hist"], "source": src, "expected": exp, "got": got})
+                break
+        if any(h["strip"] for h in rec["hist"][:-1]) and not rec["hist"][-1]["strip"]:
+            ctx.nontriv("wc:" + json.dumps([[h["doc"], h["strip"]] for h in rec["hist"]]))
+
+
+WS_DOCS = ["<i>a</i>\n<i>b</i>", "<pre><b>x</b>\n<b>y</b></pre>", "<ul>\n  <li>a</li>\n  <li>b</li>\n</ul>", "<p>a</p>\n\n<p>b</p> <p>c</p>",
+           "<!DOCTYPE html>\n<html>\n<head>\n<title>t</title>\n</head>\n<body>\n<p class=b id=a>x</p>\n<pre>\n\n</pre>\n</body>\n</html>\n",
+           "<table>\n<tr>\n<td>1</td> <td>2</td>\n</tr>\n</table>", "<textarea>\n\n</textarea> <b> </b>", "<div>\t<span> </span>\n</div>",
+           "<a href=x title=y>l</a>\n<img src=a onclick=b>\n<script>1</script>", "<head><meta charset=x></head>\n<body>\n \n"]
+OPTSETS = [dict(), dict(omit_optional_tags=True), dict(inject_meta_charset=True, omit_optional_tags=True),
+           dict(strip_whitespace=True), dict(strip_whitespace=True, alphabetical_attributes=True),
+           dict(sanitize=True, quote_attr_values="always"), dict(alphabetical_attributes=True, inject_meta_charset=True)]
+
+
+def run_process_history(ctx, pool):
+    """walker / filter / serializer state of the PROCESS: default renders before and after a batch of renders with every filter
+    switched on must be identical, and (seeded subset) identical to what a fresh interpreter renders"""
+    rng = ctx.rng
+    docs = [(d, f, tb) for d in WS_DOCS for f in (True, False) for tb in TBS]
+    for _ in range(20 if ctx.quick else 300):
+        docs.append((wide_doc(ctx, pool), rng.random() < 0.5, rng.choice(TBS)))
+    probes = [dict(omit_optional_tags=False, inject_meta_charset=False), dict()]
+    base = {}
+    for i, (d, f, tb) in enumerate(docs):
+        for j, o in enumerate(probes):
+            base[(i, j)] = lc.render_doc(d, f, tb, o, None)
+    for rnd in range(2):
+        order = list(range(len(docs)))
+        rng.shuffle(order)
+        for i in order:
+            d, f, tb = docs[i]
+            o = OPTSETS[rng.randrange(1, len(OPTSETS))] if rnd else OPTSETS[3 + (i % 2)]
+            lc.render_doc(d, f, tb, o, rng.choice([None, "utf-8", "ascii"]))
+    traces, meta = [], []
+    sub = []
+    for i, (d, f, tb) in enumerate(docs):
+        calls = []
+        for j, o in enumerate(probes):
+            again = lc.render_doc(d, f, tb, o, None)
+            calls.append({"end": "ok", "eqFresh": again == base[(i, j)]})
+            if i < len(WS_DOCS) * 4 and (i + j) % (4 if ctx.quick else 1) == 0:
+                sub.append((calls[-1], {"doc": d, "frag": f, "tb": tb, "opts": o, "enc": None}, again))
+        traces.append({"kind": "wide", "calls": calls})
+        meta.append({"doc": d, "fragment": f, "treebuilder": tb, "what": "default render before / after renders with filters on"})
+    # fresh interpreters (one per call: cold process-wide state)
+    env = dict(os.environ)
+    env["VERIF_REPO"] = core.REPO
+    lock = threading.Lock()
+    errs = []
+
+    def worker():
+        while True:
+            with lock:
+                if not sub:
+                    return
+                call, req, mine = sub.pop()
+            try:
+                pr = subprocess.run([sys.executable, "-m", "harness.lifecycle"], input=json.dumps({"render": req}) + "\n",
+                                    cwd=core.VERIF, env=env, stdout=subprocess.PIPE, stderr=subprocess.PIPE,
+                                    universal_newlines=True, timeout=120)
+                theirs = json.loads(pr.stdout.strip().splitlines()[-1])
+                if theirs != mine:
+                    call["eqFresh"] = False
+            except Exception as e:      # noqa
+                errs.append(e)
+                return
+    nsub = len(sub)
+    th = [threading.Thread(target=worker) for _ in range(12)]
+    for t in th:
+        t.start()
+    for t in th:
+        t.join()
+    if errs:
+        raise tlc.TLCError("fresh-interpreter render helper failed: %r" % errs[0])
+    ctx.notes["renders_compared_with_a_fresh_interpreter"] = nsub
+    idx = {id(t): i for i, t in enumerate(traces)}
+    for tr, rec in core.validate_traces(ctx, "Trace_SerLifecycle", traces, "trace-process"):
+        ctx.violation("a default render depends on what was rendered before in the process (or differs from a fresh interpreter): "
+                      "%s at probe %d" % (rec["v"], rec["l"]), {"kind": "process-history", "case": meta[idx[id(tr)]], "verdict": rec})
 
 
 def _take(it, stop):
